@@ -884,3 +884,30 @@ def self_check_strip() -> bool:
     r = _R()
     strip_charset_misuse(r, "fixture", [types.SimpleNamespace(node=fn, qualname="fixture.f", loc=lambda n=None: "fixture:1")])
     return (r.b, r.o) == (1, 1)
+
+
+# ------------------------------------------------------------------------------------ enumeration domain of a variable
+def enumeration_domain_matches_variable(rep: Report, rule: str, funcs: Iterable[FuncInfo]) -> int:
+    """`for o in problem.objects(T): … {v: o} …` instantiates variable / parameter v with every object of T: T has to
+    be v's own type (`v.type`). Enumerating the type of something else (the value that happens to be assigned, the
+    other operand) visits a subtype's objects only and leaves the remaining instances untouched. Returns the number
+    of such loops."""
+    n = 0
+    for f in funcs:
+        for l in walk_no_nested(f.node):
+            if not (isinstance(l, ast.For) and isinstance(l.target, ast.Name) and isinstance(l.iter, ast.Call) and call_name(l.iter) == "objects" and len(l.iter.args) == 1):
+                continue
+            o, t = l.target.id, norm(l.iter.args[0])
+            keys = []
+            for d in ast.walk(l):
+                if isinstance(d, ast.Dict):
+                    keys += [k for k, v in zip(d.keys, d.values) if k is not None and isinstance(v, ast.Name) and v.id == o]
+                elif isinstance(d, ast.Assign) and isinstance(d.targets[0], ast.Subscript) and isinstance(d.value, ast.Name) and d.value.id == o:
+                    keys.append(d.targets[0].slice)
+            for k in keys:
+                if not isinstance(k, (ast.Name, ast.Attribute)):
+                    continue
+                n += 1
+                ok = t == norm(k) + ".type"
+                rep.check(ok, rule, f"`{norm(k)}` ranges over the objects of its own type", f.loc(l), construct=f"for {o} in …objects({t}): {{{norm(k)}: {o}}}", detail="" if ok else f"the loop instantiates `{norm(k)}` but enumerates the objects of `{t}`: when that is a strict subtype the instances for the other objects of `{norm(k)}`'s type are never produced (no initial value, no case of the expansion)", function=f.qualname)
+    return n
